@@ -924,6 +924,11 @@ def iter_next(it, s):
             return none()
         s.f[1] = i + 1
         return some(sl.elem_ref(sl.len - 1 - i))
+    # an iterator type defined by the crate: run its own `next` from the MIR
+    if isinstance(s, Agg) and "::" in str(s.ty) and not str(s.ty).startswith("{"):
+        fn = it.prog.resolve_method("", strip_generics(s.ty), "next", "Iterator")
+        if fn is not None:
+            return it.run_body(it.prog.body(fn), [Ref(Cell(s, "iter"), ())])
     raise Unsupported("iterator " + s.ty)
 
 
@@ -2129,6 +2134,24 @@ def _vd_drain(it, args, dty, func):
     out = s.f[a:b]
     del s.f[a:b]
     return Agg("{owned_iter}", [Seq("vec", out, "?"), 0])
+
+
+@trait_model(r"^std::(collections::VecDeque|vec::Vec)", "Extend", "extend")
+def _extend(it, args, dty, func):
+    s = seq_of(args[0])
+    src = args[1]
+    src = src.load() if isinstance(src, Ref) and not isinstance(src, BoxV) else src
+    if isinstance(src, Agg) and str(src.ty).startswith("{"):
+        for _ in range(1 << 16):
+            x = iter_next(it, src)
+            if x.idx == 0:
+                return UNIT
+            s.f.append(x.f[0])
+        raise Unsupported("extend: iterator too long")
+    if isinstance(src, Seq):
+        s.f.extend(src.f)
+        return UNIT
+    raise Unsupported(f"extend from {src!r}")
 
 
 # --- sequential models of atomics and locks (mirsym is single-threaded; interleavings: cfa-bmc) -------
